@@ -4,7 +4,7 @@ from fractions import Fraction as F
 from scen import *
 from opsprof import CYCLE
 
-def build(rng, perm, refs, L, rebind, shared):
+def build(rng, perm, refs, L, rebind, shared, leave=False):
     """perm: order of first binding of actions 0..n-1; refs[i] = (kind, target index or 'absent') for action i"""
     ids = Ids()
     n = len(perm)
@@ -41,8 +41,13 @@ def build(rng, perm, refs, L, rebind, shared):
     s = spec(acts)
     cfg = {(c, e): s for e in ents}
     steps = [sop(spawn(e, [c])) for e in ents] + [frame(raw())]
+    leave_at = rng.randrange(1, L) if (leave and shared) else -1
     for k in range(L):
         steps.append(frame(raw(keys=[x for x in range(4) if rng.random() < .6] + [m for m in (100, 102, 104) if rng.random() < .5]), rand_dt(rng)))
+        if k == leave_at:
+            # one of the two holders of the shared context leaves in mid-run: the instance goes on for the other one, and
+            # what its conditions are shown next frame is still the state of the frame before
+            steps.append(sop(rng.choice([remove(1, c), despawn(1), remove(0, c)])))
     return scenario([c], ents, cfg, steps)
 
 REFK = ['chord', 'block', 'block-events', 'accumulate', 'none']
@@ -74,6 +79,13 @@ def cases(tier, rng):
             refs = [('none', 0), ('none', 0), [(k1, t1), (k2, t2)], ('none', 0)]
             for perm in ((0, 1, 2, 3), (2, 0, 1, 3), (0, 2, 3, 1)):
                 yield (build(rng, perm, refs, 12, None, False), 'two-blockers')
+    # shared context, one holder leaves while forward / self references are live
+    for kind in REFK[:4]:
+        for direction in ('later', 'self', 'earlier'):
+            for _ in range(3 if tier == 'thorough' else 1):
+                refs = [('none', 0), ('none', 0), ('none', 0)]
+                refs[1] = (kind, {'earlier': 0, 'later': 2, 'self': 1}[direction])
+                yield (build(rng, (0, 1, 2), refs, 10, None, True, leave=True), 'shared-holder-leaves')
     for _ in range(1000 if tier == 'thorough' else 100):
         n = rng.randint(2, 4)
         perm = list(range(n)); rng.shuffle(perm)
@@ -81,7 +93,7 @@ def cases(tier, rng):
         for i in range(n):
             if rng.random() < .35:
                 refs[i] = [refs[i], (rng.choice(REFK[:4]), rng.choice(list(range(n)) + ['absent']))]
-        yield (build(rng, perm, refs, rng.randint(4, 12), (rng.randint(1, n), rng.randrange(n)) if rng.random() < .4 else None, rng.random() < .3), 'random')
+        yield (build(rng, perm, refs, rng.randint(4, 12), (rng.randint(1, n), rng.randrange(n)) if rng.random() < .4 else None, rng.random() < .3, leave=rng.random() < .5), 'random')
 
 def nontrivial(case, out):
     return ('c_chord' in case or 'c_block_by' in case or 'm_accumulate' in case) and 'SFired' in out
@@ -89,14 +101,15 @@ def nontrivial(case, out):
 STAGES = [dict(name='visibility', mode='app', coq='Check.C13c', cases=cases, nontrivial=nontrivial, shard=25,
                exhaustive={'thorough': True, 'quick': True},
                rule='one context (exclusive, or shared with two holders) with 2-4 actions in every binding order (6 / 24 permutations), chord / block-by / events-only block-by / accumulate-by references '
-                    'forwards, backwards, to self and to an action absent from the context, some action bound a second time in the middle, bindings with and without modifier keys, actions with two references (two blockers looking at different actions); scripted states over 6-12 frames. Every instrumented condition and '
+                    'forwards, backwards, to self and to an action absent from the context, some action bound a second time in the middle, bindings with and without modifier keys, actions with two references (two blockers looking at different actions); scripted states over 6-12 frames; in the shared variant one holder may leave in mid-run. Every instrumented condition and '
                     'modifier records the states of all actions it is shown. non-trivial = a cross-action reference present and some Fired state; distinct = distinct scenario text')]
 CLAUSES = {1: 'a condition/modifier was shown a state other than: current frame for earlier-bound actions, previous frame for later-bound ones and the action itself',
            2: 'the set of actions visible to a condition is not the set of actions of the context', 3: 'Chord did not return the referenced action\'s shown state (None if absent)',
            4: 'BlockBy did not return None exactly while the referenced action is shown as Fired', 5: 'actions were not evaluated in the order of their first binding',
-           6: 'AccumulateBy did not return the running sum exactly while the referenced action is shown as Fired (the plain input otherwise)',
+           6: 'AccumulateBy did not return the running sum exactly while the referenced action is shown as Fired (the plain input otherwise), or AccumulateBy missed a frame in which its instance was evaluated',
            7: 'events-only BlockBy: events were delivered although a referenced action was shown as Fired, or withheld although none was',
            11: 'a BlockBy whose referenced action is shown as Fired did not force the action to None',
+           12: 'an operation between frames changed the polled data of an instance it neither builds nor removes (what its references are shown next frame is no longer the previous frame\'s state)',
            8: 'panic', 9: 'malformed trace', 10: 'panic'}
 def describe(stage, clause): return CLAUSES.get(clause, 'clause %d' % clause)
 def matches_known(k, case, verdict): return False
